@@ -338,6 +338,12 @@ func runC18S(s *kernel.Sim) {
 	s.YieldOn = func(point string, a []string, harness bool) bool {
 		return harness && inGroup && (isLockPoint(point) || (stmtPoints && point == "stmt")) && siteOn(a[0])
 	}
+	// a third of the runs simulate blocking (kernel/simlock.go): the overlapping
+	// transactions are parked inside critical sections too, and a transaction that
+	// cannot get a lock waits for it as a parked task
+	simLocks := tp.Chance(1, 3)
+	s.Knobs["simulated_blocking"] = simLocks
+	s.SimLocks = simLocks
 	for i, t := range txns {
 		i, t := i, t
 		s.Spawn(fmt.Sprintf("c%d", i), func() { t.out = run(env, t, fmt.Sprintf("c%d", i)) })
@@ -350,6 +356,15 @@ func runC18S(s *kernel.Sim) {
 		s.Resume(p[tp.Choose(len(p))])
 	}
 	inGroup = false
+	if simLocks {
+		s.SettleLocks()
+		s.Rule("R4")
+		if dead, desc := s.Deadlocked(0); dead {
+			s.Violate("R4", "deadlock", "overlapping transactions %v: every live task waits for a lock and none of them can be released: %s", plan, desc)
+			return
+		}
+		s.SimLocks = false
+	}
 	if s.Failed() {
 		return
 	}
